@@ -227,6 +227,13 @@ func (e *Env) lookup(name string) (TV, bool) {
 				return TV{e.fr.params[i], p.Type()}, true
 			}
 		}
+		// positional parameters (param0, param1, ...): independent of how the code names them
+		if strings.HasPrefix(name, "param") {
+			var i int
+			if _, err := fmt.Sscanf(name, "param%d", &i); err == nil && fmt.Sprintf("param%d", i) == name && i < len(fn.Params) {
+				return TV{e.fr.params[i], fn.Params[i].Type()}, true
+			}
+		}
 		for i, fv := range fn.FreeVars {
 			if fv.Name() == name {
 				pt := fv.Type().(*types.Pointer).Elem()
